@@ -189,6 +189,41 @@ def write_weather(ex, rnd):
                     r[gi] = "%.1f" % min(15.0, max(0.0, float(r[gi]) / 2))
                 out = [",".join(hdr2), ",".join(units)] + [",".join(r) for r in rows]
             open(os.path.join(dst, fn), "w").write("\n".join(out) + "\n")
+    # the same data with the columns in another order and with extra columns whose names CONTAIN the name of a column the
+    # loader reads (relhumid_tmin/_tmax are in the shipped files; tmax_night, precip_corr, globrad_clear, tavg_soil added):
+    # a column is identified by its exact header name
+    for scen in ("colalpha", "colrev", "colrand"):
+        dst = os.path.join(ex, "weather", scen)
+        os.makedirs(dst, exist_ok=True)
+        for fn in sorted(os.listdir(src)):
+            if not fn.endswith(".csv"):
+                continue
+            lines = open(os.path.join(src, fn)).read().split("\n")
+            hdr, units = lines[0].split(","), lines[1].split(",")
+            if "globrad" not in hdr or len(units) != len(hdr):
+                continue
+            rows = [ln.split(",") for ln in lines[2:] if ln.strip()]
+            ix = {h: i for i, h in enumerate(hdr)}
+            extra = {"tmax_night": lambda r: "%.1f" % (float(r[ix["tmax"]]) + 40), "precip_corr": lambda r: "%.1f" % (float(r[ix["precip"]]) + 7),
+                     "globrad_clear": lambda r: "%.1f" % (float(r[ix["globrad"]]) + 30), "tavg_soil": lambda r: "%.1f" % (float(r[ix["tavg"]]) + 25)}
+            names = hdr + sorted(extra)
+            if scen == "colalpha":
+                order = sorted(names)
+            elif scen == "colrev":
+                order = sorted(names, reverse=True)
+            else:
+                order = names[:]
+                rnd.shuffle(order)
+                # make sure a containing name stands before the contained one
+                for big, small in (("relhumid_tmin", "tmin"), ("tmax_night", "tmax"), ("precip_corr", "precip"), ("tavg_soil", "tavg")):
+                    a_, b_ = order.index(big), order.index(small)
+                    if a_ > b_:
+                        order[a_], order[b_] = order[b_], order[a_]
+            val = lambda r, nme: r[ix[nme]] if nme in ix else extra[nme](r)
+            out = [",".join(order), ",".join(units[ix[nme]] if nme in ix else "-" for nme in order)] + \
+                  [",".join(val(r, nme) for nme in order) for r in rows if len(r) == len(hdr)]
+            open(os.path.join(dst, fn), "w").write("\n".join(out) + "\n")
+            info[scen + "/" + fn] = order
     return info
 
 
@@ -229,8 +264,10 @@ def plan_runs(ctx):
     write_weather(ex, rnd)
     # weather with missing radiation: the surface value must be the one a correct normalisation (missing -> 0) gives
     scen = [("ex1", "EN", "radgap", "109_120", "soilId=075 plotNr=10001"), ("bulk", "EN", "sunonly", "109_121", "soilId=005 plotNr=10002"),
-            ("zuc", "DE", "radgap", "109_121", "soilId=001 plotNr=10002"), ("ex1", "EN", "sunonly", "109_120", "soilId=160 plotNr=10002")]
-    for k, (proj, fmt, folder, fcode, rest) in enumerate(scen if ctx.thorough else scen[:3]):
+            ("ex1", "EN", "colalpha", "109_120", "soilId=075 plotNr=10002"), ("zuc", "DE", "colrand", "109_121", "soilId=001 plotNr=10001"),
+            ("zuc", "DE", "radgap", "109_121", "soilId=001 plotNr=10002"), ("ex1", "EN", "sunonly", "109_120", "soilId=160 plotNr=10002"),
+            ("bulk", "EN", "colrev", "109_120", "soilId=002 plotNr=10001")]
+    for k, (proj, fmt, folder, fcode, rest) in enumerate(scen if ctx.thorough else scen[:5]):
         end = ("1231%d" if fmt == "EN" else "3112%d") % (1995 if ctx.thorough else 1982)
         plan.append({"line": "project=%s WeatherFolder=%s fcode=%s %s Altitude=73 Latitude=52.6732 poligonID=29872 EndDate=%s resultfolder=R/c19_%d "
                              "@every=%d @weather-ref=csv" % (proj, folder, fcode, rest, end, len(plan), 60 if ctx.thorough else 24),
@@ -381,6 +418,8 @@ def correspond(ctx):
     for x in rows:
         if x["k"] == "noweatherref":
             c.mismatches.append({"kind": "weather-file-not-readable-by-the-reference", "line": plan[x["line"]]["line"]})
+    if not any(str(plan[r_["line"]].get("weather", "")).startswith("col") and r_.get("weather_ref_days", 0) > 300 for r_ in runs):
+        c.mismatches.append({"kind": "coverage-missing", "what": "no traced run on a weather file with permuted / name-containing columns"})
     if not any(r_.get("radiation_missing_days", 0) > 0 for r_ in runs):
         c.mismatches.append({"kind": "coverage-missing", "what": "no traced day with missing global radiation"})
     ctx.extra["traced_runs"] = len(runs)
